@@ -282,12 +282,13 @@ func runC13(e *Env) error {
 					dl := (kind == 0 && pc.open == "{{" || kind == 2 && pc.open == "{%") && e.Rng.Intn(3) > 0
 					dr := (kind == 1 && pc.close == "}}" || kind == 3 && pc.close == "%}") && e.Rng.Intn(3) > 0
 					// text before the tag: "t" + wsL ; after: wsR + text
-					dashed.WriteString("t" + wsL + pc.open)
+					lead := pick(e.Rng, []string{"t", "t", "{ t", "a{b", "}", "{x", "%}t", "t{."}) // lone braces in the text (never ending in a brace or a blank)
+					dashed.WriteString(lead + wsL + pc.open)
 					if dl {
 						dashed.WriteString("-")
-						hand.WriteString("t" + pc.open)
+						hand.WriteString(lead + pc.open)
 					} else {
-						hand.WriteString("t" + wsL + pc.open)
+						hand.WriteString(lead + wsL + pc.open)
 					}
 					dashed.WriteString(" " + pc.body + " ")
 					hand.WriteString(" " + pc.body + " ")
